@@ -258,6 +258,10 @@ def spec_C01(tier):
     j, b = kernel_jobs(tier, ["lcp", "getLE64"])
     s["jobs"] += j
     s["bounds"].update(b)
+    j, b = long_jobs(tier)
+    s["jobs"] += j
+    s["bounds"].update(b)
+    s["reach"].update({"zzH_long" + k: ["end", "long-match"] for k in ("HP", "BHP", "DHP", "BDHP")})
     return s
 
 
@@ -534,26 +538,36 @@ def spec_C13(tier):
     for kind, kp in kinds:
         tag = "-".join("%s%d" % (k[0] + k[-1], v) for k, v in kp.items())
         for mode in (0, 1, 2):
-            for ld, w in ((0, 0), (3, 1)) if tier == "quick" else ((0, 0), (3, 1), (3, 3)):
+            for ld, w in ((3, 1),) if tier == "quick" else ((0, 0), (3, 1), (3, 3)):
                 for bs in (2, N):
                     for PB in ((N + 3,) if mode != 2 and tier == "quick" else (N, N + 3)):
                         jobs.append(J("reset%s-%s-m%d-ld%d-w%d-bs%d-B%d" % (kind, tag, mode, ld, w, bs, PB), "zzH_reset" + kind,
-                                      params=dict(kp, L=3, N=N, ld=ld, w=w, nn=N, mode=mode, bs=bs - 1, PB=PB), uf_mul=True))
+                                      params=dict(kp, L=3, N=N, ld=ld, w=w, nn=N, mode=mode, bs=bs - 1, PB=PB, Wn=64 if bs == N else 3), uf_mul=True))
+        # with Parse(nil) among the calls and a second fill after the first drain (shorter first fill)
+        for mode in (1, 2):
+            if kind == "BUP" and tier == "quick":
+                continue
+            for wn in (64, 3):
+                jobs.append(J("reset%s-%s-m%d-nil-fill2-W%d" % (kind, tag, mode, wn), "zzH_reset" + kind,
+                              params=dict(kp, L=5, N=4, ld=5, w=1, nn=4, mode=mode, bs=4, PB=N + 3, withNil=1, N2=3, Wn=wn), uf_mul=True))
     NS = 5 if tier == "quick" else 6
     for kind in ("GSAP", "OSAP"):
-        for tag, cp in sap_cfgs(tier, kind.lower())[:4]:
-            for pre in (0, 1, 2):
+        pf = 0 if tier == "quick" else 1  # flags of the calls before the Reset: fixed to 0 (quick) or symbolic
+        for tag, cp in sap_cfgs(tier, kind.lower())[1:3] if tier == "quick" else sap_cfgs(tier, kind.lower())[:4]:
+            for pre in (0, 1, 2, 3):
                 for mode in (0, 1):
-                    jobs.append(J("reset%s-%s-pre%d-m%d" % (kind, tag, pre, mode), "zzH_reset" + kind, params=dict(cp, N=NS, k=2, pre=pre, mode=mode), stubs=SAP_STUBS))
+                    jobs.append(J("reset%s-%s-pre%d-m%d" % (kind, tag, pre, mode), "zzH_reset" + kind, params=dict(cp, N=NS, k=2, pre=pre, mode=mode, preFlags=pf), stubs=SAP_STUBS))
         # two-letter streams: longer prior history and longer data after the Reset
         NB = 8 if tier == "quick" else 10
         for tag, cp in sap_bin_cfgs(tier, kind.lower(), NB)[:2]:
-            for pre in (0, 2):
-                jobs.append(J("reset%s-bin-%s-pre%d" % (kind, tag, pre), "zzH_reset" + kind, params=dict(cp, N=NB, k=NB // 2, pre=pre, mode=0, alpha=2), stubs=SAP_STUBS))
+            for pre in (0, 2, 3):
+                jobs.append(J("reset%s-bin-%s-pre%d" % (kind, tag, pre), "zzH_reset" + kind,
+                              params=dict(cp, N=NB, k=NB // 2 + (1 if pre == 3 else 0), pre=pre, mode=0, alpha=2, preFlags=pf), stubs=SAP_STUBS))
     return {"jobs": jobs,
             "bounds": {"hash parsers": "used parser = ARBITRARY state (0 or 3 buffered bytes with arbitrary margin, every table entry an arbitrary uint32 pair: whatever it processed before); "
                                        "then Reset(data with margin) / Reset(data without margin, copied) / Reset(nil)+Write with %d arbitrary bytes; then lockstep Parse to ErrEmptyBuffer "
-                                       "with symbolic flags against a new parser; BlockSize 2 and %d, BufferSize %d and %d" % (N, N, N, N + 3),
+                                       "with symbolic flags against a new parser; BlockSize 2 and %d, BufferSize %d and %d, WindowSize 3 and 64; variants whose first call after the Reset is Parse(nil) and that "
+                                       "write 3 more bytes after the first drain" % (N, N, N, N + 3),
                        "GSAP/OSAP": "real prior history on %d arbitrary bytes split 2/%d (and on 8 bytes over a two-letter alphabet split 4/4): Write Parse* [Shrink] or Write Parse(one block), then Reset(data) or Reset(nil)+Write, lockstep against a new parser" % (NS, NS - 2),
                        "configurations": [k + " " + str(p) for k, p in kinds]},
             "assumptions": PARSE_ASSUME + SAP_ASSUME + ["'other instances used concurrently': the module has no goroutines, locks or channels; the engine checks on every explored path of every harness "
@@ -604,6 +618,24 @@ def run_jobs(tier):
                                 "hash parsers: arbitrary tables (BUP: tables produced by a real history on the same bytes, with 3 arbitrary bytes in front), InputLen %s, WindowSize symbolic from 1, flags 0; GSAP: MinMatchLen 2/3/8, WindowSize 2 and 48; OSAP: WindowSize 1 and 48" % (lays, list(ils))}
 
 
+def long_jobs(tier):
+    kinds = [("HP", dict(inputLen=3, hashBits=1)), ("BHP", dict(inputLen=3, hashBits=1)), ("DHP", dict(inputLen=3, inputLen2=6, hashBits=1)),
+             ("BDHP", dict(inputLen=2, inputLen2=8, hashBits=1))]
+    d1s = (12, 15, 19, 20, 24, 27, 28) if tier == "quick" else tuple(range(11, 31))
+    jobs = []
+    for kind, kp in kinds:
+        for d1 in d1s:
+            jobs.append(J("long%s-p1-d%d" % (kind, d1), "zzH_long" + kind, params=dict(kp, n=40, p=1, w=3, d1=d1, bs=40), uf_mul=True))
+    if tier != "quick":
+        for kind, kp in kinds + [("BUP", dict(inputLen=3, hashBits=1, bucketSize=1))]:
+            for p in (2, 3):
+                for d1 in (14, 17, 21, 22, 26, 30, 33):
+                    jobs.append(J("long%s-p%d-d%d" % (kind, p, d1), "zzH_long" + kind, params=dict(dict(kp, hashBits=0) if kind != "BUP" else kp, n=44, p=p, w=3, d1=d1, d2=d1 + 6, bs=44), uf_mul=True))
+    return jobs, {"structured long inputs": "new parser, fills of 3 and 37 bytes; data periodic (period 1%s) over arbitrary base bytes with an arbitrary byte at position d1 in %s"
+                                            "%s, so that matches end at every length from 7 to 26 across the 8/16/24-byte steps of the extension loops; WindowSize symbolic from 1; flags symbolic"
+                                            % ("" if tier == "quick" else ", 2, 3", list(d1s), "" if tier == "quick" else " (period 2/3: a second arbitrary byte 6 positions later)")}
+
+
 def spec_C19(tier):
     s = parse_spec(tier, "maximality: every emitted match ends at the block end or the next byte differs from the byte Offset back; BHP/BDHP: a literal directly in front "
                    "of a match never equals the byte Offset before it while that byte is buffered; run clause: a block of >= 32 bytes inside a run of one byte carries at most one "
@@ -614,7 +646,11 @@ def spec_C19(tier):
     j, b = kernel_jobs(tier, ["lcp", "lcs", "getLE64"])
     s["jobs"] += j
     s["bounds"].update(b)
+    j, b = long_jobs(tier)
+    s["jobs"] += j
+    s["bounds"].update(b)
     s["reach"].update({"zzH_run" + k: ["end", "match"] for k in ("HP", "BHP", "DHP", "BDHP", "BUP", "GSAP", "OSAP")})
+    s["reach"].update({"zzH_long" + k: ["end", "long-match"] for k in ("HP", "BHP", "DHP", "BDHP")})
     return s
 
 
